@@ -70,9 +70,26 @@ def observe(q):
     return out
 
 
+def relayout(t, kind):
+    """the same logical tensor held with non-contiguous strides / a storage offset (results must not depend on it)"""
+    if kind == "transposed" and t.ndim >= 2:
+        return t.transpose(0, -1).contiguous().transpose(0, -1)
+    if kind == "strided" and t.ndim >= 1 and t.shape[-1] > 0:
+        big = torch.zeros(*t.shape[:-1], t.shape[-1] * 2, dtype=t.dtype)
+        big[..., ::2] = t
+        return big[..., ::2]
+    if kind == "offset":
+        buf = torch.zeros(t.numel() + 3, dtype=t.dtype)
+        buf[3:] = t.reshape(-1)
+        return buf[3:].view(t.shape)
+    return t
+
+
 def run(call):
     fn = call["fn"]
     t = from_bits(call["bits"], call["shape"], call["dtype"]) if "bits" in call else None
+    if t is not None and call.get("layout"):
+        t = relayout(t, call["layout"])
     before = t.clone() if t is not None else None
     if fn == "quantize_weight":
         q = quantize_weight(t, QT[call["qtype"]], call["axis"], call.get("group_size"), OPT[call.get("optimizer")])
